@@ -934,9 +934,13 @@ def mon_refdicts(S):
 
 def mon_names(S):
     """a derived (specialized) name decodes to a short name and qualifiers that encode back to it"""
+    from edb.schema import referencing as s_ref
+    derived = (s_ref.ReferencedObject, s_func.CallableObject, s_func.Parameter)
     top = S._top_schema
     for i, tn in top._id_to_type.items():
         c = so.ObjectMeta.get_schema_class(tn)
+        if not issubclass(c, derived):
+            continue        # a plain object may legitimately spell '@' in its own identifier
         nm = top._id_to_data[i][DESC[CODE[c]]['nameidx']]
         if isinstance(nm, sn.QualName) and '@' in nm.name:
             if sn.get_specialized_name(sn.shortname_from_fullname(nm), *sn.quals_from_fullname(nm)) != nm.name:
@@ -983,6 +987,23 @@ def mon_expect(S, exp):
 NAME_TAGS = ('refdict-', 'orphan-child', 'name-remangle', 'expect-', 'sibling-create-collision')
 
 
+def kf2_predicate(st):
+    """input predicate of known finding C04-KF2: one ALTER TYPE command renames a pointer p and, in
+    the same command, a pointer named p comes (back) into the type -- inherited through
+    EXTENDING or created again"""
+    import re
+    if not st.startswith('ALTER TYPE'):
+        return False
+    ident = r'(`(?:[^`]|``)*`|[^\s{;]+)'
+    for m in re.finditer(r'ALTER (?:PROPERTY|LINK) ' + ident + r' \{ RENAME TO', st):
+        p_ = m.group(1)
+        if 'EXTENDING' in st:
+            return True
+        if re.search(r'CREATE (?:REQUIRED |OPTIONAL |MULTI |SINGLE )*(?:PROPERTY|LINK) ' + re.escape(p_) + r'[ :]', st):
+            return True
+    return False
+
+
 def fingerprint(S):
     import pickle
     maps = tuple((F._id_to_data, F._id_to_type, F._name_to_id, F._shortname_to_id,
@@ -998,6 +1019,7 @@ def run_ddl_case(line, vrt, std):
         stmts = stmts['h']
     S = s_schema.ChainedSchema(std, s_schema.EMPTY_SCHEMA, s_schema.EMPTY_SCHEMA)
     fails, out = [], []
+    rr = False           # a command inside the input predicate of known finding C04-KF2 was accepted
     classes_seen = set()
     snaps = [(S, fingerprint(S))]
     base_attrs = attrs(std)
@@ -1020,12 +1042,16 @@ def run_ddl_case(line, vrt, std):
             fails.append(('rejected-ddl-changed-schema' if S2 is None else 'frozen-previous-value-changed') + f'@{n}')
         if S2 is not None:
             S = S2
+            if kf2_predicate(st):
+                rr = True
             snaps.append((S, fingerprint(S)))
             classes_seen.update(S._top_schema._id_to_type.values())
             for F in (S._top_schema, S._global_schema):
                 for b in mon_index(F, set()):
                     fails.append(f'{b}@{n}')
             for b in mon_refint(S) + mon_chained_api(S) + mon_refdicts(S) + mon_names(S) + mon_expect(S, exp):
+                if rr and b == 'refdict-child-name-owner':
+                    b = 'kfrr-' + b      # rename + rebase in one ALTER: known finding C04-KF2
                 fails.append(f'{b}@{n}')
             after_ids = set(S._top_schema._id_to_type.keys()) | set(S._global_schema._id_to_type.keys())
             for i in before_ids - after_ids:
